@@ -316,7 +316,7 @@ def describe_sig(evs, ev, inv, bad):
     how = {"second": "; a second signal followed %s ms later" % st.get("second_ms"),
            "timeout": "; the sink takes no bytes any more from the signal on",
            "startup": " (sent %s ms after the process was started, without waiting for a report)" % st.get("after_ms"),
-           "full": "; the result destination is /dev/full",
+           "full": "; the result destination is /dev/full", "nodir": "; the result destination lies in a directory that does not exist",
            "grpc": "; grpc gun", "mixed": "; one phout and one jsonlines pool",
            "backpr": "; queue 16, 4 KiB buffer, a pipe slower than the load (back-pressure)"}.get(scen, "")
     return ("signal%s sig=%s kind=%s pipe=%s inv=%s bad=%s" % (" scen=" + scen if scen else "", st.get("sig"), st.get("kind"), st.get("pipe"), inv, bad),
@@ -408,7 +408,7 @@ def run(tier, v):
     def process_level(vdrive, vpandora):
         vlib.run_driver(vdrive, ["aggsig", "-vpandora", vpandora, "-out", sig_path, "-runs", str(nsig),
                                  "-par", "6" if thorough else "4", "-fail", "80" if thorough else "4",
-                                 "-scen", "144" if thorough else "12", "-long", "1" if thorough else "0"], 3000)
+                                 "-scen", "143" if thorough else "13", "-long", "1" if thorough else "0"], 3000)
         srows = vlib.read_ndjson(sig_path)
         machinery_events(srows, "aggsig")
         return srows, validate(v, "TraceShutdown", srows, d, describe_sig, "signal")
@@ -473,13 +473,13 @@ def run(tier, v):
                         "error_path_runs_signalled_while_awaiting_tasks": sum(1 for e in exits if starts[e["run"]].get("fail") and e.get("signals")),
                         "forced": sum(1 for e in exits if e.get("forced")),
                         "scenarios": {sc: sum(1 for r in srows if r["ev"] == "Start" and r.get("scen") == sc)
-                                      for sc in ("second", "timeout", "startup", "hup", "quit", "full", "grpc", "mixed", "backpr")},
+                                      for sc in ("second", "timeout", "startup", "hup", "quit", "full", "nodir", "grpc", "mixed", "backpr")},
                         "exits_by_interrupt_timeout": sum(1 for e in exits if e.get("timeout_exit")),
                         "exits_by_second_signal": sum(1 for e in exits if e.get("another_signal") and e.get("signals", 0) >= 2),
                         "killed_by_default_action": sum(1 for e in exits if e.get("killed")),
                         "full_disk_runs_failed": sum(1 for e in exits if starts[e["run"]].get("scen") == "full" and e["status"] != 0),
                         "late_reports_lost": sum(e["entered"] - e["lines"] - e["dropped"] for e in exits
-                                                 if not e.get("forced") and starts[e["run"]].get("scen") not in ("full", "quit", "hup")),
+                                                 if not e.get("forced") and starts[e["run"]].get("scen") not in ("full", "nodir", "quit", "hup")),
                         "reports": sum(e["entered"] for e in exits), "trace_spec_states": sig_states},
         "format_cases": {"cases": ncases, "tlc_states": cstates},
         "result_destinations": sink_cov,
